@@ -16,7 +16,7 @@ def line_text(chrom, pad, k, ch="x"):
     return s
 
 
-def make_file(runs, pads, final_nl, ch="x"):
+def make_file(runs, pads, final_nl, ch="x", eol="\n"):
     """runs: list of run lengths; pads: per-line pad sizes -> (text, expected index)"""
     names = ["chrA", "chrB", "c", "chrDD", "e5"]
     lines, want, off, k = [], [], 0, 0
@@ -25,10 +25,10 @@ def make_file(runs, pads, final_nl, ch="x"):
         for j in range(rl):
             if j == 0:
                 want.append((len(text), names[ci]))
-            text += line_text(names[ci], pads[k], j, ch) + "\n"
+            text += line_text(names[ci], pads[k], j, ch) + eol
             k += 1
     if not final_nl:
-        text = text[:-1]
+        text = text[:-len(eol)]
     return text, want
 
 
@@ -83,13 +83,19 @@ class C18(Prop):
                         files.append((runs, p, nl))
         if tier != "thorough":
             files = [f for i, f in enumerate(files) if len(f[0]) <= 2 or i % 3 == 0]
+        files0 = list(files)
         # the same shapes with multi-byte UTF-8 text in the extra column: a bisection probe may land inside a character
         files = [(r_, p_, n_, "x") for (r_, p_, n_) in files] + \
                 [(r_, [q // 2 for q in p_], n_, "é") for i, (r_, p_, n_) in enumerate(files) if max(p_) > 3 and i % 2 == 0]
-        for (runs, p, nl, ch) in files:
-            text, want = make_file(runs, p, nl, ch)
+        # three-column lines ending in CR LF, or with a blank after the end coordinate (the readers trim both)
+        files = [f + ("\n",) for f in files] + \
+                [(r_, p_, n_, "x", eol) for i, (r_, p_, n_) in enumerate(files0) if max(p_) == 0 for eol in ("\r\n", " \n")]
+        for (runs, p, nl, ch, eol) in files:
+            text, want = make_file(runs, p, nl, ch, eol)
             c = CaseT(f"ix{k}", "index", [], ["TEXT " + text.encode().hex()])
             c.tags.add("index")
+            if eol != "\n":
+                c.tags.add("index_crlf_or_trailing_blank")
             c.tags.add(f"index_chroms{len(runs)}")
             if max(p) > 3:
                 c.tags.add("index_long_line")
